@@ -6,8 +6,10 @@ has one type for its whole life (prefix i/d/b/s), so programs are statically wel
 constant; errors (division by zero, out of range, user exceptions) are injected deliberately and rarely.
 
 Expr:  ("lit", V) ("var", NAME) ("un", OP, e) ("bin", OP, a, b) ("call", name, [e]) ("fcall", NAME, [e])
+       ("member", name, recv, [e])
 Stmt:  ("nop",) ("let", NAME, e) ("do", e) ("print", [e]) ("if", [(cond|None, [stmt])]) ("while", e, [stmt])
        ("for", NAME, b, e, step|None, dir, [stmt]) ("begin", [stmt], [(NAME, [stmt])]) ("raise", NAME)
+       ("forall", ITER, src, dir, [stmt])
        ("return", e|None) ("break",) ("continue",) ("func", NAME, [param], rettype, [stmt], [(NAME, [stmt])])
 """
 import struct
@@ -71,6 +73,8 @@ def expr_src(e):
         return "%s(%s)" % (e[1], ", ".join(expr_src(a) for a in e[2]))
     if k == "fcall":
         return "%s(%s)" % (e[1].lower(), ", ".join(expr_src(a) for a in e[2]))
+    if k == "member":
+        return "%s.%s(%s)" % (expr_src(e[2]), e[1], ", ".join(expr_src(a) for a in e[3]))
     raise ValueError(e)
 
 
@@ -88,6 +92,8 @@ def expr_sexp(e):
         return "(call %s %s)" % (e[1], " ".join(expr_sexp(a) for a in e[2]))
     if k == "fcall":
         return "(fcall %s %s)" % (e[1], " ".join(expr_sexp(a) for a in e[2]))
+    if k == "member":
+        return "(member %s %s %s)" % (e[1], expr_sexp(e[2]), " ".join(expr_sexp(a) for a in e[3]))
     raise ValueError(e)
 
 
@@ -138,6 +144,10 @@ def stmt_src(s, ind=0):
         if d != "auto":
             hdr += " " + d
         return pad + hdr + " loop\n" + stmts_src(body, ind + 1) + pad + "end loop;\n"
+    if k == "forall":
+        _, it, src, d, body = s
+        return (pad + "forall %s in %s %sloop\n" % (it.lower(), expr_src(src), "" if d == "auto" else d + " ")
+                + stmts_src(body, ind + 1) + pad + "end loop;\n")
     if k == "begin":
         return pad + "begin\n" + stmts_src(s[1], ind + 1) + whens_src(s[2], ind) + pad + "end;\n"
     if k == "raise":
@@ -182,6 +192,9 @@ def stmt_sexp(s):
     if k == "for":
         _, v, b, e, st, d, body = s
         return "(for %s %s %s %s %s %s)" % (v, expr_sexp(b), expr_sexp(e), "-" if st is None else expr_sexp(st), d, stmts_sexp(body))
+    if k == "forall":
+        _, it, src, d, body = s
+        return "(forall %s %s %s %s)" % (it, expr_sexp(src), d, stmts_sexp(body))
     if k == "begin":
         return "(begin (body %s)%s)" % (stmts_sexp(s[1]), whens_sexp(s[2]))
     if k == "raise":
@@ -222,8 +235,12 @@ class Gen:
 
     EXC = ["E1", "E2", "OUT_OF_RANGE", "DIVIDE_BY_ZERO"]
 
-    def __init__(self, rng, nvars=3, funcs=True, errors=0.08):
+    def __init__(self, rng, nvars=3, funcs=True, errors=0.08, tables=0.0):
         self.r = rng
+        self.ptab = tables      # share of statements working on tables (0: none; tables live in the main program only)
+        self.tabs_on = False
+        self.locked = set()     # tables being traversed by an enclosing forall: no statement may change them
+        self.iters = []         # (iterator name, writable) of the enclosing foralls, innermost last
         self.nvars = nvars
         self.use_funcs = funcs
         self.perr = errors
@@ -246,7 +263,71 @@ class Gen:
                 if vs:
                     return ("var", r.choice(vs))
             return self.literal(t)
+        if self.tabs_on and t in "is" and r.random() < 0.12:
+            tv = "T%s%d" % (t.upper(), r.randint(1, 2))
+            self.count("table-read")
+            if t == "i" and r.random() < 0.4:
+                return ("member", "count", ("var", tv), [])
+            return ("member", "at", ("var", tv), [I(r.choice([0, 0, 1, 1, 2, 3, -1]) if r.random() > self.perr else 9)])
         return getattr(self, "expr_" + t)(depth - 1, scope)
+
+    def table_stmt(self, depth, scope, inloop, infunc):
+        """a statement on the table variables TI1 TI2 TS1 TS2 (element type = second letter)"""
+        r = self.r
+        t = r.choice("is")
+        free = [v for v in ("T%s1" % t.upper(), "T%s2" % t.upper()) if v not in self.locked]
+        c = r.random()
+        if c < 0.40 and depth > 0:
+            # forall over a variable (mostly) or over a temporary table
+            self.count("forall")
+            self.loopvar += 1
+            it = "%sE%d" % (t.upper(), self.loopvar)
+            if r.random() < 0.85:
+                tv = "T%s%d" % (t.upper(), r.randint(1, 2))
+                src = ("var", tv)
+                writable = tv not in self.locked
+            else:
+                tv = None
+                src = ("call", "tab", [I(r.choice([0, 1, 2, 3])), self.expr(t, 1, scope)])
+                writable = True
+            d = r.choice(["auto", "auto", "asc", "desc"])
+            was_locked = tv in self.locked
+            if tv:
+                self.locked.add(tv)
+            self.iters.append((it, writable, t))
+            sc2 = set(scope) | {it}
+            body = [("print", [("var", it)])] if r.random() < 0.6 else []
+            body += self.block(3, depth - 1, sc2, True, infunc)
+            self.iters.pop()
+            if tv and not was_locked:
+                self.locked.discard(tv)
+            scope.add(it)
+            return ("forall", it, src, d, body)
+        if c < 0.50 and self.iters:
+            ws = [x for x in self.iters if x[1]]
+            if ws:
+                it, _, et = r.choice(ws)
+                self.count("iter-write")
+                return ("let", it, self.expr(et, 2, scope))
+        if not free:
+            return ("print", [("member", "count", ("var", "T%s1" % t.upper()), [])])
+        tv = r.choice(free)
+        idx = lambda: I(r.choice([0, 0, 1, 1, 2, 3]) if r.random() > self.perr else r.choice([-1, 7]))
+        if c < 0.60:
+            self.count("tab-new")
+            n = I(r.choice([0, 1, 2, 3, 4])) if r.random() > 0.05 else L("N:i0")
+            return ("let", tv, ("call", "tab", [n, self.expr(t, 2, scope)]))
+        if c < 0.68:
+            self.count("tab-copy")
+            other = "T%s%d" % (t.upper(), 3 - int(tv[2]))
+            return ("let", tv, ("var", other))
+        self.count("tab-mutate")
+        m = r.choice(["concat", "concat", "put", "insert", "delete"])
+        if m == "concat":
+            return ("do", ("member", "concat", ("var", tv), [self.expr(t, 2, scope)]))
+        if m == "delete":
+            return ("do", ("member", "delete", ("var", tv), [idx()]))
+        return ("do", ("member", m, ("var", tv), [idx(), self.expr(t, 2, scope)]))
 
     def literal(self, t):
         r = self.r
@@ -348,6 +429,8 @@ class Gen:
 
     def stmt(self, depth, scope, inloop, infunc):
         r = self.r
+        if self.tabs_on and r.random() < self.ptab:
+            return self.table_stmt(depth, scope, inloop, infunc)
         c = r.random()
         if depth <= 0:
             c = c * 0.45
@@ -430,12 +513,14 @@ class Gen:
         pnames = ["%s%d" % (t.upper(), 7 + k) for k, t in enumerate(ps)]
         scope = set(pnames)
         saved = self.nvars
+        tabs_saved, self.tabs_on = self.tabs_on, False
         body = self.block(3, 2, scope, False, rt)
         body.append(("return", self.expr(rt, 1, scope)))
         whens = []
         if r.random() < 0.3:
             whens.append((r.choice(self.EXC + ["OTHERS"]), [("return", self.expr(rt, 1, scope))]))
         self.nvars = saved
+        self.tabs_on = tabs_saved
         f = ("func", name, pnames, rt, body, whens)
         self.funcs.append((name, ps, rt))
         return f
@@ -452,6 +537,11 @@ class Gen:
                 v = "%s%d" % (t.upper(), k)
                 prog.append(("let", v, self.literal(t) if self.r.random() < 0.9 else L({"i": "N:i0", "d": "N:d0", "b": "N:b0", "s": "N:s0"}[t])))
                 scope.add(v)
+        if self.ptab > 0:
+            self.tabs_on = True
+            for t in "is":
+                for k in (1, 2):
+                    prog.append(("let", "T%s%d" % (t.upper(), k), ("call", "tab", [I(self.r.choice([0, 1, 2, 3])), self.literal(t)])))
         for _ in range(nstmts):
             prog.append(self.stmt(depth, scope, False, None))
         return prog
